@@ -9,12 +9,16 @@ import (
 	"sort"
 	"strings"
 
+	"golang.org/x/tools/go/cfg"
+
 	"osmcheck/core"
 )
 
 // C01.R4/R5 — provenance of element fields: every store into a field of osm.Node/Way/Relation/WayNode/Member/Tag
-// inside the decoder is traced back (syntactic def-use within the function, through bound parameters and string-table
-// lookups) to the format columns / scalar fields, block-parameter getters and unit constants it is computed from.
+// inside the decoder is traced back (def-use within the function, context-sensitively through calls of functions of
+// the package in both directions: parameters to the arguments of the call being traced, results to the returned
+// expressions) to the format columns / scalar fields, block-parameter getters and unit constants it is computed from.
+// Names of locals, helpers and constants play no role: constants are compared by value, columns by the descriptor.
 
 type c01Atoms struct {
 	set   map[string]bool
@@ -36,9 +40,16 @@ func (a *c01Atoms) list() []string {
 }
 
 type c01Tracer struct {
-	cm      *c01Model
-	info    *types.Info
-	pbField *types.Var
+	cm   *c01Model
+	info *types.Info
+}
+
+// c01Ctx is the calling context of a trace: fi is the function whose body is being read, call the call through which
+// the trace entered it (nil for the function the traced store is in, or for a caller reached through a parameter).
+type c01Ctx struct {
+	fi   *FuncInfo
+	call *ast.CallExpr
+	up   *c01Ctx
 }
 
 // column atom name for an iterator field
@@ -59,16 +70,28 @@ func (t *c01Tracer) colAtom(f *types.Var) string {
 	return "col:" + strings.Join(ms, "|") + "." + col.Name
 }
 
-func (t *c01Tracer) trace(fi *FuncInfo, e ast.Expr, delta bool, out *c01Atoms, seen map[string]bool, depth int) {
-	if e == nil || depth > 12 {
+func (t *c01Tracer) mark(out *c01Atoms, a string, delta bool) {
+	out.set[a] = true
+	if delta {
+		out.delta[a] = true
+	} else {
+		out.plain[a] = true
+	}
+}
+
+// trace collects the atoms expression e (evaluated in context ctx) is computed from. resIdx selects the result
+// when e is a call yielding a tuple.
+func (t *c01Tracer) trace(ctx *c01Ctx, e ast.Expr, resIdx int, delta bool, out *c01Atoms, seen map[string]bool, depth int) {
+	if e == nil || depth > 14 {
 		return
 	}
 	info := t.info
+	fi := ctx.fi
 	e = ast.Unparen(e)
-	// constants
+	// constants, by value
 	if tv, ok := info.Types[e]; ok && tv.Value != nil {
 		if sel, isSel := e.(*ast.SelectorExpr); isSel {
-			if c, isConst := info.Uses[sel.Sel].(*types.Const); isConst && c.Pkg() != nil {
+			if c, isConst := info.Uses[sel.Sel].(*types.Const); isConst && c.Pkg() != nil && c.Pkg() != t.cm.m.pk.Types {
 				out.set["const:"+c.Pkg().Name()+"."+c.Name()] = true
 				return
 			}
@@ -84,80 +107,82 @@ func (t *c01Tracer) trace(fi *FuncInfo, e ast.Expr, delta bool, out *c01Atoms, s
 		if o == nil {
 			return
 		}
-		key := fmt.Sprintf("%p/%v", o, delta)
+		key := fmt.Sprintf("%p/%p/%v", o, ctx.call, delta)
 		if seen[key] {
 			return
 		}
 		seen[key] = true
-		// parameter?
+		// parameter of the function being read?
 		if idx := c01ParamIndex(info, fi, o); idx >= 0 {
-			if f := t.cm.paramIter[o]; f != nil {
+			if len(t.cm.paramIter[o]) > 0 {
 				return // iterator parameters are resolved at their reads
 			}
-			// trace the argument at every call site
-			for _, u := range t.cm.m.sortedUnits() {
-				ufi := u.fi
-				t.cm.m.walkUnit(u, func(n ast.Node) bool {
+			if ctx.call != nil && ctx.up != nil {
+				if idx < len(ctx.call.Args) {
+					t.trace(ctx.up, ctx.call.Args[idx], 0, delta, out, seen, depth+1)
+				}
+				return
+			}
+			// the store's own function: the argument at every call site
+			for _, caller := range t.cm.worker {
+				caller := caller
+				ast.Inspect(caller.Decl.Body, func(n ast.Node) bool {
 					if call, ok := n.(*ast.CallExpr); ok && callee(info, call) == fi.Obj && idx < len(call.Args) {
-						t.trace(ufi, call.Args[idx], delta, out, seen, depth+1)
+						t.trace(&c01Ctx{fi: caller}, call.Args[idx], 0, delta, out, seen, depth+1)
 					}
 					return true
 				})
 			}
 			return
 		}
-		// local: all assignments in fi
-		ast.Inspect(fi.Decl.Body, func(n ast.Node) bool {
-			switch s := n.(type) {
-			case *ast.AssignStmt:
-				for i, l := range s.Lhs {
-					id, ok := ast.Unparen(l).(*ast.Ident)
-					if !ok || objOf(info, id) != o {
-						continue
-					}
-					var rhs ast.Expr
-					if len(s.Rhs) == len(s.Lhs) {
-						rhs = s.Rhs[i]
-					} else if len(s.Rhs) == 1 {
-						rhs = s.Rhs[0]
-					}
-					switch s.Tok {
-					case token.ADD_ASSIGN, token.SUB_ASSIGN:
-						t.trace(fi, rhs, true, out, seen, depth+1)
-					case token.ASSIGN, token.DEFINE:
-						// v = v + E  /  v = E + v  is a running sum
-						if be, ok := ast.Unparen(rhs).(*ast.BinaryExpr); ok && be.Op == token.ADD && (objOf(info, be.X) == o || objOf(info, be.Y) == o) {
-							other := be.Y
-							if objOf(info, be.Y) == o {
-								other = be.X
-							}
-							t.trace(fi, other, true, out, seen, depth+1)
-						} else {
-							t.trace(fi, rhs, delta, out, seen, depth+1)
-						}
-					default:
-						out.set["op:"+s.Tok.String()] = true
-						t.trace(fi, rhs, delta, out, seen, depth+1)
-					}
+		// local: all definitions in fi
+		for _, d := range c01Defs(info, fi.Decl.Body, o) {
+			switch d.tok {
+			case token.RANGE:
+				if rs, ok := d.stmt.(*ast.RangeStmt); ok {
+					out.set["range:"+types.ExprString(rs.X)] = true
 				}
-			case *ast.RangeStmt:
-				if (s.Key != nil && objOf(info, s.Key) == o) || (s.Value != nil && objOf(info, s.Value) == o) {
-					out.set["range:"+types.ExprString(s.X)] = true
-				}
+				continue
+			case token.INC, token.DEC, token.VAR, token.AND:
+				continue
 			}
-			return true
-		})
+			if d.rhs == nil {
+				continue
+			}
+			idx := 0
+			if d.index >= 0 {
+				idx = d.index
+			}
+			switch d.tok {
+			case token.ADD_ASSIGN, token.SUB_ASSIGN:
+				t.trace(ctx, d.rhs, idx, true, out, seen, depth+1)
+			case token.ASSIGN, token.DEFINE:
+				// v = v + E  /  v = E + v  is a running sum
+				if be, ok := ast.Unparen(d.rhs).(*ast.BinaryExpr); ok && be.Op == token.ADD && (objOf(info, be.X) == o || objOf(info, be.Y) == o) {
+					other := be.Y
+					if objOf(info, be.Y) == o {
+						other = be.X
+					}
+					t.trace(ctx, other, 0, true, out, seen, depth+1)
+				} else {
+					t.trace(ctx, d.rhs, idx, delta, out, seen, depth+1)
+				}
+			default:
+				out.set["op:"+d.tok.String()] = true
+				t.trace(ctx, d.rhs, idx, delta, out, seen, depth+1)
+			}
+		}
 	case *ast.BinaryExpr:
-		t.trace(fi, x.X, delta, out, seen, depth+1)
-		t.trace(fi, x.Y, delta, out, seen, depth+1)
+		t.trace(ctx, x.X, 0, delta, out, seen, depth+1)
+		t.trace(ctx, x.Y, 0, delta, out, seen, depth+1)
 	case *ast.UnaryExpr:
-		t.trace(fi, x.X, delta, out, seen, depth+1)
+		t.trace(ctx, x.X, 0, delta, out, seen, depth+1)
 	case *ast.StarExpr:
-		t.trace(fi, x.X, delta, out, seen, depth+1)
+		t.trace(ctx, x.X, 0, delta, out, seen, depth+1)
 	case *ast.IndexExpr:
 		// st[i]
 		sub := newAtoms()
-		t.trace(fi, x.X, false, sub, map[string]bool{}, depth+1)
+		t.trace(ctx, x.X, 0, false, sub, map[string]bool{}, depth+1)
 		if sub.set["get:S"] {
 			out.set["st"] = true
 		} else {
@@ -165,19 +190,53 @@ func (t *c01Tracer) trace(fi *FuncInfo, e ast.Expr, delta bool, out *c01Atoms, s
 				out.set[k] = true
 			}
 		}
-		t.trace(fi, x.Index, delta, out, seen, depth+1)
+		t.trace(ctx, x.Index, 0, delta, out, seen, depth+1)
 	case *ast.SelectorExpr:
 		if f := fieldOf(info, x); f != nil {
 			out.set["field:"+f.Name()] = true
+			// a field of a struct type of the decoder package (a value carried from a shared helper to its callers):
+			// whatever is stored into that field anywhere in the worker role
+			if f.Pkg() == t.cm.m.pk.Types && namedPath(f.Type()) != protoscanIter {
+				key := fmt.Sprintf("field %p/%v", f, delta)
+				if seen[key] {
+					return
+				}
+				seen[key] = true
+				for _, g := range t.cm.worker {
+					g := g
+					ast.Inspect(g.Decl.Body, func(n ast.Node) bool {
+						switch s := n.(type) {
+						case *ast.AssignStmt:
+							for i, l := range s.Lhs {
+								if fieldOf(info, l) != f {
+									continue
+								}
+								switch {
+								case len(s.Rhs) == len(s.Lhs):
+									d := delta || s.Tok == token.ADD_ASSIGN || s.Tok == token.SUB_ASSIGN
+									t.trace(&c01Ctx{fi: g}, s.Rhs[i], 0, d, out, seen, depth+1)
+								case len(s.Rhs) == 1:
+									t.trace(&c01Ctx{fi: g}, s.Rhs[0], i, delta, out, seen, depth+1)
+								}
+							}
+						case *ast.KeyValueExpr:
+							if id, ok := s.Key.(*ast.Ident); ok && info.Uses[id] == f {
+								t.trace(&c01Ctx{fi: g}, s.Value, 0, delta, out, seen, depth+1)
+							}
+						}
+						return true
+					})
+				}
+			}
 		}
 	case *ast.CallExpr:
 		// conversion
-		if tv, ok := info.Types[x.Fun]; ok && tv.IsType() && len(x.Args) == 1 {
-			t.trace(fi, x.Args[0], delta, out, seen, depth+1)
+		if c01IsConversion(info, x) && len(x.Args) == 1 {
+			t.trace(ctx, x.Args[0], 0, delta, out, seen, depth+1)
 			return
 		}
 		fn := callee(info, x)
-		sel, _ := x.Fun.(*ast.SelectorExpr)
+		sel, _ := ast.Unparen(x.Fun).(*ast.SelectorExpr)
 		if fn == nil {
 			out.set["call:?"] = true
 			return
@@ -188,56 +247,80 @@ func (t *c01Tracer) trace(fi *FuncInfo, e ast.Expr, delta bool, out *c01Atoms, s
 		}
 		switch {
 		case recvT == protoscanIter:
-			f := t.cm.iterField(sel.X)
-			if f == nil {
+			fields := t.iterFieldsCtx(ctx, sel.X, 0)
+			if len(fields) == 0 {
 				out.set["col:?unbound iterator "+types.ExprString(sel.X)] = true
 				return
 			}
-			a := t.colAtom(f)
-			out.set[a] = true
-			if delta {
-				out.delta[a] = true
-			} else {
-				out.plain[a] = true
+			for _, f := range fields {
+				t.mark(out, t.colAtom(f), delta)
 			}
 		case recvT == protoscanMsg:
-			mvo := rootObj(info, sel.X)
-			mv := t.cm.byObj[mvo]
+			mv := t.cm.msgVarOf(sel.X)
 			if mv == nil {
 				out.set["fld:?"] = true
 				return
 			}
-			n := t.cm.enclosingCase(fi, x, mvo)
-			fd := t.cm.desc.Messages[mv.msg].Fields[n]
-			a := fmt.Sprintf("fld:%s.#%d", mv.msg, n)
-			if fd != nil {
-				a = "fld:" + mv.msg + "." + fd.Name
+			cases := t.cm.casesAt(fi, x, mv, 0)
+			if len(cases) == 0 {
+				t.mark(out, fmt.Sprintf("fld:%s.#?", mv.msg), delta)
 			}
-			out.set[a] = true
-			if delta {
-				out.delta[a] = true
-			} else {
-				out.plain[a] = true
+			for _, n := range cases {
+				fd := t.cm.desc.Messages[mv.msg].Fields[n]
+				a := fmt.Sprintf("fld:%s.#%d", mv.msg, n)
+				if fd != nil {
+					a = "fld:" + mv.msg + "." + fd.Name
+				}
+				t.mark(out, a, delta)
 			}
-		case strings.HasPrefix(fn.Name(), "Get") && fn.Pkg() != nil && strings.HasSuffix(fn.Pkg().Path(), "/osmpbf/internal/osmpbf"):
+		case strings.HasPrefix(fn.Name(), "Get") && c01GenTypeName(c01RecvTypeOf(fn)) != "":
 			out.set["get:"+strings.TrimPrefix(fn.Name(), "Get")] = true
 		case fn.Pkg() == t.cm.m.pk.Types:
-			// in-package helper: string-table lookup `return p0[p1], nil`
-			tf := findFunc(t.cm.m.pk, funcName(fn))
-			if tf != nil && c01IsLookup(info, tf) && len(x.Args) == 2 {
-				sub := newAtoms()
-				t.trace(fi, x.Args[0], false, sub, map[string]bool{}, depth+1)
-				if sub.set["get:S"] {
-					out.set["st"] = true
-				} else {
-					out.set["lookup:?"] = true
-				}
-				t.trace(fi, x.Args[1], delta, out, seen, depth+1)
+			// function of the package: read its returned expressions in the context of this call
+			tf := c01FuncInfo(t.cm.m.pk, fn)
+			if tf == nil {
+				out.set["call:?"+fn.Name()] = true
 				return
 			}
-			out.set["call:"+fn.Name()] = true
-			for _, a := range x.Args {
-				t.trace(fi, a, delta, out, seen, depth+1)
+			key := fmt.Sprintf("call %p/%d/%v", x, resIdx, delta)
+			if seen[key] {
+				return
+			}
+			seen[key] = true
+			sub := &c01Ctx{fi: tf, call: x, up: ctx}
+			nret := 0
+			ast.Inspect(tf.Decl.Body, func(n ast.Node) bool {
+				if _, ok := n.(*ast.FuncLit); ok {
+					return false
+				}
+				ret, ok := n.(*ast.ReturnStmt)
+				if !ok {
+					return true
+				}
+				nret++
+				switch {
+				case resIdx < len(ret.Results) && len(ret.Results) > 1 || len(ret.Results) == 1 && fn.Type().(*types.Signature).Results().Len() == 1:
+					t.trace(sub, ret.Results[resIdx], 0, delta, out, seen, depth+1)
+				case len(ret.Results) == 1:
+					t.trace(sub, ret.Results[0], resIdx, delta, out, seen, depth+1) // return g(...)
+				case len(ret.Results) == 0:
+					// named results
+					if res := tf.Decl.Type.Results; res != nil {
+						i := 0
+						for _, fld := range res.List {
+							for _, nm := range fld.Names {
+								if i == resIdx {
+									t.trace(sub, nm, 0, delta, out, seen, depth+1)
+								}
+								i++
+							}
+						}
+					}
+				}
+				return true
+			})
+			if nret == 0 {
+				out.set["call:?"+fn.Name()] = true
 			}
 		default:
 			if fn.Pkg() != nil && fn.Pkg().Path() == "time" {
@@ -245,14 +328,37 @@ func (t *c01Tracer) trace(fi *FuncInfo, e ast.Expr, delta bool, out *c01Atoms, s
 			}
 			if sel != nil {
 				if _, isPkg := info.Uses[identOf(sel.X)].(*types.PkgName); !isPkg {
-					t.trace(fi, sel.X, delta, out, seen, depth+1)
+					t.trace(ctx, sel.X, 0, delta, out, seen, depth+1)
 				}
 			}
 			for _, a := range x.Args {
-				t.trace(fi, a, delta, out, seen, depth+1)
+				t.trace(ctx, a, 0, delta, out, seen, depth+1)
 			}
 		}
 	}
+}
+
+// iterFieldsCtx resolves an iterator expression in the calling context of the trace: a parameter of a function the
+// trace entered through a call denotes what that call passes (one column), otherwise every field it is bound to.
+func (t *c01Tracer) iterFieldsCtx(ctx *c01Ctx, e ast.Expr, depth int) []*types.Var {
+	info := t.info
+	x := ast.Unparen(c01Expand(info, ctx.fi.Decl.Body, e))
+	if o := objOf(info, x); o != nil && ctx.call != nil && ctx.up != nil && depth < 4 {
+		if idx := c01ParamIndex(info, ctx.fi, o); idx >= 0 && idx < len(ctx.call.Args) {
+			return t.iterFieldsCtx(ctx.up, ctx.call.Args[idx], depth+1)
+		}
+	}
+	return t.cm.iterFieldsIn(ctx.fi, e)
+}
+
+func c01RecvTypeOf(fn *types.Func) types.Type {
+	if fn == nil {
+		return nil
+	}
+	if r := fn.Type().(*types.Signature).Recv(); r != nil {
+		return r.Type()
+	}
+	return nil
 }
 
 func c01ParamIndex(info *types.Info, fi *FuncInfo, o types.Object) int {
@@ -266,24 +372,6 @@ func c01ParamIndex(info *types.Info, fi *FuncInfo, o types.Object) int {
 		}
 	}
 	return -1
-}
-
-// c01IsLookup: func(p0 []string, p1 int...) (string, error) with a return of p0[p1].
-func c01IsLookup(info *types.Info, fi *FuncInfo) bool {
-	p0, p1 := c01Param(info, fi, 0), c01Param(info, fi, 1)
-	if p0 == nil || p1 == nil {
-		return false
-	}
-	ok := false
-	ast.Inspect(fi.Decl.Body, func(n ast.Node) bool {
-		if ret, isRet := n.(*ast.ReturnStmt); isRet && len(ret.Results) >= 1 {
-			if ix, isIx := ast.Unparen(ret.Results[0]).(*ast.IndexExpr); isIx && objOf(info, ix.X) == p0 && objOf(info, stripConv(info, ix.Index)) == p1 {
-				ok = true
-			}
-		}
-		return true
-	})
-	return ok
 }
 
 // c01Spec is what the format prescribes for one destination field.
@@ -350,14 +438,17 @@ func c01R4(r *core.R) {
 		}
 		return false, false
 	}
-	check := func(fi *FuncInfo, dest string, rhs ast.Expr, storeDelta bool, pos token.Pos, what string) {
+	check := func(fi *FuncInfo, dest string, rhs ast.Expr, resIdx int, storeDelta bool, pos token.Pos, what string) {
 		specs, known := table[dest]
 		if !known {
 			return
 		}
-		c := "store@" + fi.Name() + " " + dest
+		if tv, ok := info.Types[rhs]; ok && tv.Value != nil {
+			return // a constant default (R6 decides those), not a decoded value
+		}
+		c := "store@" + dest
 		atoms := newAtoms()
-		t.trace(fi, rhs, storeDelta, atoms, map[string]bool{}, 0)
+		t.trace(&c01Ctx{fi: fi}, rhs, resIdx, storeDelta, atoms, map[string]bool{}, 0)
 		var cols []string
 		for _, a := range atoms.list() {
 			if strings.HasPrefix(a, "col:") || strings.HasPrefix(a, "fld:") {
@@ -380,7 +471,7 @@ func c01R4(r *core.R) {
 			for _, sp := range specs {
 				want = append(want, sp.cols...)
 			}
-			r.Bad(c, pos, "`%s`: %s is computed from column(s) %v; the format defines it by %s: the field carries another column's values (e.g. lat/lon, uid/user_sid, key/value confused)", what, dest, cols, strings.Join(want, " or "))
+			r.Bad(c, pos, "`%s` in %s: %s is computed from column(s) %v; the format defines it by %s: the field carries another column's values (e.g. lat/lon, uid/user_sid, key/value confused)", what, fi.Name(), dest, cols, strings.Join(want, " or "))
 			return
 		}
 		if matched[dest] == nil {
@@ -409,7 +500,7 @@ func c01R4(r *core.R) {
 			}
 		}
 		if len(missing) > 0 || len(extra) > 0 {
-			r.Bad(c, pos, "`%s`: %s must be computed from %s with %v; missing %v, unexpected %v: the value is scaled/offset/looked up differently from what the format defines", what, dest, cols[0], specs[si].extras, missing, extra)
+			r.Bad(c, pos, "`%s` in %s: %s must be computed from %s with %v; missing %v, unexpected %v: the value is scaled/offset/looked up differently from what the format defines", what, fi.Name(), dest, cols[0], specs[si].extras, missing, extra)
 			return
 		}
 		// R5 delta coding
@@ -425,24 +516,21 @@ func c01R4(r *core.R) {
 		gotDelta, gotPlain := atoms.delta[a], atoms.plain[a]
 		switch {
 		case wantDelta && (!gotDelta || gotPlain):
-			r.Bad(c, pos, "`%s`: %s is DELTA coded in the format, so the element value is the running sum of the column; here the raw read reaches the field without accumulation: every element after the first gets a wrong value", what, cols[0])
+			r.Bad(c, pos, "`%s` in %s: %s is DELTA coded in the format, so the element value is the running sum of the column; here the raw read reaches the field without accumulation: every element after the first gets a wrong value", what, fi.Name(), cols[0])
 		case !wantDelta && gotDelta:
-			r.Bad(c, pos, "`%s`: %s is not delta coded in the format but is accumulated across elements here", what, cols[0])
+			r.Bad(c, pos, "`%s` in %s: %s is not delta coded in the format but is accumulated across elements here", what, fi.Name(), cols[0])
 		default:
 			dc := "plain"
 			if wantDelta {
 				dc = "running sum (DELTA coded)"
 			}
-			r.OK(c, pos, "from %s, %s, with %v", cols[0], dc, specs[si].extras)
+			r.OK(c, pos, "in %s: from %s, %s, with %v", fi.Name(), cols[0], dc, specs[si].extras)
 		}
 	}
-	for _, u := range m.sortedUnits() {
-		fd, ok := u.node.(*ast.FuncDecl)
-		if !ok || !u.roles["worker"] || isGenerated(r.P, fd.Pos()) {
-			continue
-		}
-		fi := u.fi
-		ast.Inspect(fd.Body, func(n ast.Node) bool {
+	memberMapped := map[string]bool{} // format member types that some store maps to an osm type
+	for _, fi := range cm.worker {
+		fi := fi
+		ast.Inspect(fi.Decl.Body, func(n ast.Node) bool {
 			switch s := n.(type) {
 			case *ast.AssignStmt:
 				for i, l := range s.Lhs {
@@ -460,25 +548,31 @@ func c01R4(r *core.R) {
 					}
 					dest := tn[strings.LastIndex(tn, ".")+1:] + "." + f.Name()
 					var rhs ast.Expr
+					idx := 0
 					if len(s.Rhs) == len(s.Lhs) {
 						rhs = s.Rhs[i]
 					} else if len(s.Rhs) == 1 {
-						rhs = s.Rhs[0]
+						rhs, idx = s.Rhs[0], i
 					}
-					if dest == "Member.Type" {
-						c01MemberType(r, cm, t, fi, s, rhs)
+					if rhs == nil {
 						continue
 					}
-					check(fi, dest, rhs, s.Tok == token.ADD_ASSIGN || s.Tok == token.SUB_ASSIGN, s.Pos(), src(fs, s))
+					if dest == "Member.Type" {
+						c01MemberType(r, cm, t, fi, s, rhs, memberMapped)
+						continue
+					}
+					check(fi, dest, rhs, idx, s.Tok == token.ADD_ASSIGN || s.Tok == token.SUB_ASSIGN, s.Pos(), src(fs, s))
 				}
 			case *ast.CompositeLit:
 				tn := namedPath(info.TypeOf(s))
-				if tn != core.ModulePath+".Tag" {
+				if !elemTypes[tn] {
 					return true
 				}
 				for _, e := range s.Elts {
 					if kv, ok := e.(*ast.KeyValueExpr); ok {
-						check(fi, "Tag."+kv.Key.(*ast.Ident).Name, kv.Value, false, kv.Pos(), src(fs, s))
+						if id, ok := kv.Key.(*ast.Ident); ok {
+							check(fi, tn[strings.LastIndex(tn, ".")+1:]+"."+id.Name, kv.Value, 0, false, kv.Pos(), src(fs, s))
+						}
 					}
 				}
 			}
@@ -498,182 +592,198 @@ func c01R4(r *core.R) {
 			}
 		}
 	}
-	// dense keys_vals pair order: within the tag loop the read feeding Key precedes the read feeding Value, and the
-	// zero test that ends a node's tags is applied to the key read
+	for _, k := range []string{"Relation_NODE", "Relation_WAY", "Relation_RELATION"} {
+		if !memberMapped[k] {
+			r.Bad("coverage@Member.Type "+strings.TrimPrefix(k, "Relation_"), token.NoPos, "no store maps the format's member type %s to an osm type: members of that type come out untyped", strings.TrimPrefix(k, "Relation_"))
+		}
+	}
+	// dense keys_vals pair order: the read feeding Key precedes the read feeding Value, and the zero test that ends a
+	// node's tags is applied to the key read
 	c01KeyValOrder(r, cm)
 }
 
-// c01MemberType: members[i].Type = osm.TypeX under case osmpbf.Relation_X of a switch whose tag derives from the types column.
-func c01MemberType(r *core.R, cm *c01Model, t *c01Tracer, fi *FuncInfo, as *ast.AssignStmt, rhs ast.Expr) {
-	par := parentsOf(r.P, fi)
-	var cc *ast.CaseClause
-	var sw *ast.SwitchStmt
-	for p := par[as]; p != nil; p = par[p] {
-		if c, ok := p.(*ast.CaseClause); ok && cc == nil {
-			cc = c
-		}
-		if s, ok := p.(*ast.SwitchStmt); ok && sw == nil {
-			sw = s
-		}
-	}
-	name := "?"
-	if sel, ok := ast.Unparen(rhs).(*ast.SelectorExpr); ok {
-		name = sel.Sel.Name
-	}
-	c := "store@" + fi.Name() + " Member.Type " + name
-	if cc == nil || sw == nil || sw.Tag == nil || len(cc.List) != 1 {
-		r.Unknown(c, as.Pos(), "member type is not assigned under a single-valued case of a switch")
-		return
-	}
-	atoms := newAtoms()
-	t.trace(fi, sw.Tag, false, atoms, map[string]bool{}, 0)
-	if !atoms.set["col:Relation.types"] {
-		r.Bad(c, as.Pos(), "the switch deciding the member type is on %v, not on the relation's types column", atoms.list())
-		return
-	}
-	caseName := ""
-	if sel, ok := ast.Unparen(cc.List[0]).(*ast.SelectorExpr); ok {
-		caseName = sel.Sel.Name
-	}
-	want := map[string]string{"Relation_NODE": "TypeNode", "Relation_WAY": "TypeWay", "Relation_RELATION": "TypeRelation"}
-	if want[caseName] == name && name != "?" {
-		r.OK(c, as.Pos(), "MemberType %s ↦ osm.%s, switch on the types column", strings.TrimPrefix(caseName, "Relation_"), name)
-	} else {
-		r.Bad(c, as.Pos(), "member type %s of the format is mapped to osm.%s", strings.TrimPrefix(caseName, "Relation_"), name)
-	}
-}
-
-// c01KeyValOrder checks the dense keys_vals loop: `k := read; if k == 0 {break}; v := read; Tag{Key: st[k], Value: st[v]}`.
+// c01KeyValOrder checks the dense keys_vals pairs: of the two reads of the keys_vals iterator the first (dominating)
+// one feeds Tag.Key, the second Tag.Value; the second executes only when the first is known non-zero, and the zero
+// case leaves the pair loop.
 func c01KeyValOrder(r *core.R, cm *c01Model) {
 	m := cm.m
 	info := m.info
-	// the function and iterator field for DenseNodes.keys_vals
-	for f, it := range cm.iters {
-		col, _ := cm.iterColumn(f)
-		if col == nil || col.Name != "keys_vals" {
+	var kvField *types.Var
+	for f := range cm.iters {
+		if col, _ := cm.iterColumn(f); col != nil && col.Name == "keys_vals" {
+			kvField = f
+		}
+	}
+	if kvField == nil {
+		return // R1 reports the missing column
+	}
+	for _, fi := range cm.worker {
+		fi := fi
+		type rd struct {
+			call *ast.CallExpr
+			obj  types.Object
+		}
+		var reads []rd
+		ast.Inspect(fi.Decl.Body, func(n ast.Node) bool {
+			as, ok := n.(*ast.AssignStmt)
+			if !ok || len(as.Rhs) != 1 || len(as.Lhs) < 1 {
+				return true
+			}
+			call, ok := ast.Unparen(as.Rhs[0]).(*ast.CallExpr)
+			if !ok {
+				return true
+			}
+			sel, ok := ast.Unparen(call.Fun).(*ast.SelectorExpr)
+			if !ok || namedPath(info.TypeOf(sel.X)) != protoscanIter || cm.iterFieldIn(fi, sel.X) != kvField {
+				return true
+			}
+			if s := info.Selections[sel]; s == nil || s.Kind() == types.FieldVal {
+				return true
+			}
+			if sel.Sel.Name == "HasNext" || sel.Sel.Name == "Count" {
+				return true
+			}
+			reads = append(reads, rd{call, objOf(info, as.Lhs[0])})
+			return true
+		})
+		if len(reads) == 0 {
 			continue
 		}
-		_ = it
-		for _, u := range m.sortedUnits() {
-			fd, ok := u.node.(*ast.FuncDecl)
-			if !ok || !u.roles["worker"] {
+		c := "pair-order@keys_vals"
+		if len(reads) != 2 {
+			r.Unknown(c, reads[0].call.Pos(), "%s reads the keys_vals column at %d sites; the key/value pairing is only understood for one key read followed by one value read", fi.Name(), len(reads))
+			continue
+		}
+		f := c01FnOf(r.P, fi)
+		k, v := reads[0], reads[1]
+		if !f.dominatesPos(k.call.Pos(), v.call.Pos()) {
+			k, v = v, k
+		}
+		if !f.dominatesPos(k.call.Pos(), v.call.Pos()) || k.obj == nil || v.obj == nil {
+			r.Unknown(c, reads[0].call.Pos(), "neither keys_vals read dominates the other in %s", fi.Name())
+			continue
+		}
+		// zero test on the first read controls the second read
+		zeroOK := false
+		var zeroBlk *guardFact
+		facts := f.factsAtPos(v.call.Pos())
+		for i := range facts {
+			fact := &facts[i]
+			a, b, neq, ok := c01EqCmp(fact.expr)
+			if !ok {
 				continue
 			}
-			// find a for loop whose body reads the iterator twice
-			ast.Inspect(fd.Body, func(n ast.Node) bool {
-				loop, ok := n.(*ast.ForStmt)
-				if !ok || loop.Cond != nil {
-					return true
+			for _, pr := range [][2]ast.Expr{{a, b}, {b, a}} {
+				if z, okc := constInt(info, pr[1]); okc && z == 0 && objOf(info, c01StripConv(info, pr[0])) == k.obj && fact.val == neq {
+					zeroOK = true
+					zeroBlk = fact
 				}
-				var reads []*ast.AssignStmt
-				for _, st := range loop.Body.List {
-					if as, ok := st.(*ast.AssignStmt); ok && len(as.Rhs) == 1 {
-						if call, ok := as.Rhs[0].(*ast.CallExpr); ok {
-							if sel, ok := call.Fun.(*ast.SelectorExpr); ok && fieldOf(info, sel.X) == f {
-								reads = append(reads, as)
-							}
-						}
+			}
+		}
+		// the zero case (the edge of that test that does not lead to the value read) leaves the innermost loop holding the reads
+		leaves := false
+		if zeroOK {
+			vb := f.blockOf(v.call.Pos())
+			loop := c01InnermostLoop(c01Loops(f), vb)
+			if loop != nil && zeroBlk.at != nil && len(zeroBlk.at.Succs) == 2 {
+				at := zeroBlk.at
+				for _, s := range at.Succs {
+					if !reachableFrom([]*cfg.Block{s}, func(x *cfg.Block) bool { return x == at })[vb] {
+						leaves = !loop.blocks[s]
 					}
 				}
-				if len(reads) != 2 {
-					return true
+			}
+		}
+		// which read does each Tag field derive from?
+		derives := func(e ast.Expr, o types.Object) bool {
+			found := false
+			seen := map[types.Object]bool{}
+			var walk func(e ast.Expr, depth int)
+			walk = func(e ast.Expr, depth int) {
+				if depth > 6 || found || e == nil {
+					return
 				}
-				c := "pair-order@" + u.fi.Name() + " keys_vals"
-				kObj, vObj := objOf(info, reads[0].Lhs[0]), objOf(info, reads[1].Lhs[0])
-				// zero test on the first read, between the reads, leaving the loop
-				zeroOK := false
-				for _, st := range loop.Body.List {
-					ifs, ok := st.(*ast.IfStmt)
-					if !ok || ifs.Pos() < reads[0].End() || ifs.Pos() > reads[1].Pos() {
-						continue
-					}
-					if be, ok := ast.Unparen(ifs.Cond).(*ast.BinaryExpr); ok && be.Op == token.EQL && objOf(info, be.X) == kObj {
-						if v, okc := constInt(info, be.Y); okc && v == 0 && len(ifs.Body.List) == 1 {
-							if br, ok := ifs.Body.List[0].(*ast.BranchStmt); ok && br.Tok == token.BREAK {
-								zeroOK = true
-							}
-						}
-					}
-				}
-				// the Tag literal uses the first read for Key and the second for Value
-				keyFrom, valFrom := types.Object(nil), types.Object(nil)
-				tr := &c01Tracer{cm: cm, info: info}
-				ast.Inspect(loop.Body, func(x ast.Node) bool {
-					cl, ok := x.(*ast.CompositeLit)
-					if !ok || namedPath(info.TypeOf(cl)) != core.ModulePath+".Tag" {
+				ast.Inspect(e, func(y ast.Node) bool {
+					id, ok := y.(*ast.Ident)
+					if !ok {
 						return true
 					}
-					for _, e := range cl.Elts {
-						kv, ok := e.(*ast.KeyValueExpr)
-						if !ok {
-							continue
-						}
-						// which of the two read variables does the value derive from?
-						uses := func(o types.Object) bool {
-							found := false
-							var walk func(e ast.Expr, depth int)
-							seen := map[types.Object]bool{}
-							walk = func(e ast.Expr, depth int) {
-								if depth > 6 || found {
-									return
-								}
-								ast.Inspect(e, func(y ast.Node) bool {
-									id, ok := y.(*ast.Ident)
-									if !ok {
-										return true
-									}
-									ob := objOf(info, id)
-									if ob == o {
-										found = true
-										return false
-									}
-									if ob != nil && !seen[ob] {
-										seen[ob] = true
-										ast.Inspect(loop.Body, func(z ast.Node) bool {
-											if as, ok := z.(*ast.AssignStmt); ok && len(as.Rhs) == 1 {
-												for _, l := range as.Lhs {
-													if objOf(info, l) == ob {
-														walk(as.Rhs[0], depth+1)
-													}
-												}
-											}
-											return true
-										})
-									}
-									return true
-								})
-							}
-							walk(kv.Value, 0)
-							return found
-						}
-						_ = tr
-						switch kv.Key.(*ast.Ident).Name {
-						case "Key":
-							if uses(kObj) && !uses(vObj) {
-								keyFrom = kObj
-							} else if uses(vObj) {
-								keyFrom = vObj
-							}
-						case "Value":
-							if uses(vObj) && !uses(kObj) {
-								valFrom = vObj
-							} else if uses(kObj) {
-								valFrom = kObj
-							}
+					ob := objOf(info, id)
+					if ob == o {
+						found = true
+						return false
+					}
+					if ob != nil && !seen[ob] {
+						seen[ob] = true
+						for _, d := range c01Defs(info, fi.Decl.Body, ob) {
+							walk(d.rhs, depth+1)
 						}
 					}
 					return true
 				})
-				switch {
-				case !zeroOK:
-					r.Bad(c, loop.Pos(), "the 0 delimiter that ends a node's tags is not tested on the first (key) read of each pair: keys and values go out of step or the next node's tags are swallowed")
-				case keyFrom != kObj || valFrom != vObj:
-					r.Bad(c, loop.Pos(), "in each keys_vals pair the first read is the key and the second the value; the tag literal uses them the other way round or twice")
-				default:
-					r.OK(c, loop.Pos(), "first read → key (0 ends the node's tags), second read → value")
+			}
+			walk(e, 0)
+			return found
+		}
+		keyFrom, valFrom := "", ""
+		ast.Inspect(fi.Decl.Body, func(x ast.Node) bool {
+			var key, val ast.Expr
+			switch s := x.(type) {
+			case *ast.CompositeLit:
+				if namedPath(info.TypeOf(s)) != core.ModulePath+".Tag" {
+					return true
 				}
+				for _, e := range s.Elts {
+					if kv, ok := e.(*ast.KeyValueExpr); ok {
+						switch kv.Key.(*ast.Ident).Name {
+						case "Key":
+							key = kv.Value
+						case "Value":
+							val = kv.Value
+						}
+					}
+				}
+			case *ast.AssignStmt:
+				for i, l := range s.Lhs {
+					if fl := fieldOf(info, l); fl != nil && namedPath(info.TypeOf(ast.Unparen(l).(*ast.SelectorExpr).X)) == core.ModulePath+".Tag" && len(s.Rhs) == len(s.Lhs) {
+						switch fl.Name() {
+						case "Key":
+							key = s.Rhs[i]
+						case "Value":
+							val = s.Rhs[i]
+						}
+					}
+				}
+			default:
 				return true
-			})
+			}
+			cls := func(e ast.Expr) string {
+				dk, dv := derives(e, k.obj), derives(e, v.obj)
+				switch {
+				case dk && !dv:
+					return "first"
+				case dv && !dk:
+					return "second"
+				case dk && dv:
+					return "both"
+				}
+				return "none"
+			}
+			if key != nil {
+				keyFrom = cls(key)
+			}
+			if val != nil {
+				valFrom = cls(val)
+			}
+			return true
+		})
+		switch {
+		case !zeroOK || !leaves:
+			r.Bad(c, k.call.Pos(), "in %s the 0 delimiter that ends a node's tags is not tested on the first (key) read of each pair with the zero case leaving the pair loop: keys and values go out of step or the next node's tags are swallowed", fi.Name())
+		case keyFrom != "first" || valFrom != "second":
+			r.Bad(c, k.call.Pos(), "in each keys_vals pair the first read is the key and the second the value; in %s Tag.Key derives from the %s read and Tag.Value from the %s read", fi.Name(), keyFrom, valFrom)
+		default:
+			r.OK(c, k.call.Pos(), "in %s: first read → key (0 ends the node's tags and leaves the pair loop), second read → value", fi.Name())
 		}
 	}
 }
